@@ -28,7 +28,13 @@ pub fn run(ctx: &mut RunCtx) -> Result<(), Violation> {
     let mut f = ctx.stream("faults");
     // selectors equal to entries of the compressor's built-in constant table
     if w.chance(1, 2) {
-        crate::program::set_const_pool(crate::program::hades_table());
+        // the 25 MDS entries (with their repeated values) are as likely as the 335 round constants
+        let t = crate::program::hades_table();
+        let mut pool = t.clone();
+        for _ in 0..13 {
+            pool.extend_from_slice(&t[335..]);
+        }
+        crate::program::set_const_pool(pool);
         ctx.st.probe("programs_with_builtin_table_constants");
     } else {
         crate::program::set_const_pool(Vec::new());
